@@ -26,6 +26,7 @@ func c01(p *P) {
 	p.gConvergeFilter("C01.R4")
 	p.gReceiveGuards("C01.R5")
 	p.gValidatedOnly("C01.R5")
+	p.gEquality("C01.R5")
 	p.include(c08, map[string]string{"C08.R1": "C01.R6", "C08.R2": "C01.R6b", "C08.R3": "C01.R6c", "C08.R4": "C01.R6d"}, map[string]string{"C01.R6": "strong-quorum threshold exact", "C01.R6b": "quorum operands from one table", "C01.R6c": "single threshold", "C01.R6d": "vote weights: exact scaling of the power table"})
 	p.include(c05, map[string]string{"C05.R4": "C01.R7", "C05.R5": "C01.R7b", "C05.R6": "C01.R7c", "C05.R2": "C01.R7d", "C05.R1": "C01.R7e", "C05.R9": "C01.R7f"}, map[string]string{"C01.R7": "justification validation", "C01.R7b": "justification signature", "C01.R7c": "validation cache cannot vouch for a different value", "C01.R7d": "per-phase validity table", "C01.R7e": "message accepted only past every check (sender, power, signature, justification)", "C01.R7f": "committee cache"})
 }
@@ -41,6 +42,7 @@ func c02(p *P) {
 	r.Rule("C02.R4", "bottom never decided", 10)
 	r.Rule("C02.R5", "host chain truncated and validated before use", 8)
 	p.gReceiveGuards("C02.R1")
+	p.gEquality("C02.R1")
 	p.gProposalProvenance("C02.R2")
 	p.gCandidatePrefixes("C02.R2")
 	p.gConvergeFilter("C02.R3")
